@@ -15,10 +15,11 @@ macro_rules! abstract_ty {
         pub struct $n<I: Interner> { _p: core::marker::PhantomData<I> }
     )* } }
 }
-abstract_ty!(Environment, Goal, Lifetime, Ty, EnaVariable, InferenceValue, TraitRef, AliasTy, TypeOutlives, EnaTable);
+abstract_ty!(Environment, Goal, Lifetime, Ty, Const, ConcreteConst, EnaVariable, InferenceValue, TraitRef, AliasTy, TypeOutlives, EnaTable);
 impl<I: Interner> HasInterner for Goal<I> { type Interner = I; }
 //@CLONE_EQ generics="I: Interner" type="Lifetime<I>"
 //@CLONE_EQ generics="I: Interner" type="Ty<I>"
+//@CLONE_EQ generics="I: Interner" type="Const<I>"
 //@CLONE_EQ generics="I: Interner" type="AliasTy<I>"
 impl<I: Interner> Copy for EnaVariable<I> {}
 impl<I: Interner> Clone for EnaVariable<I> { #[verifier::external_body] fn clone(&self) -> (r: Self) ensures r == *self { unimplemented!() } }
@@ -43,6 +44,8 @@ pub struct BoundVar { _p: () }
 //@TYPE file=chalk-ir/src/lib.rs kind=struct name=PlaceholderIndex attrs="#[derive(Clone, Copy)]"
 //@TYPE file=chalk-ir/src/lib.rs kind=enum name=LifetimeData attrs="#[verifier::reject_recursive_types(I)]"
 //@TYPE file=chalk-ir/src/lib.rs kind=struct name=LifetimeOutlives attrs="#[verifier::reject_recursive_types(I)]"
+//@TYPE file=chalk-ir/src/lib.rs kind=struct name=ConstData attrs="#[verifier::reject_recursive_types(I)]"
+//@TYPE file=chalk-ir/src/lib.rs kind=enum name=ConstValue attrs="#[verifier::reject_recursive_types(I)]"
 //@TYPE file=chalk-ir/src/lib.rs kind=struct name=AliasEq attrs="#[verifier::reject_recursive_types(I)]"
 //@TYPE file=chalk-ir/src/lib.rs kind=enum name=WhereClause attrs="#[verifier::reject_recursive_types(I)]"
 //@TYPE file=chalk-ir/src/lib.rs kind=struct name=InEnvironment attrs="#[verifier::reject_recursive_types(G)]"
@@ -106,6 +109,16 @@ impl<I: Interner> InferenceValue<I> {
     pub fn from_lifetime(interner: I, lifetime: Lifetime<I>) -> (r: Self) ensures r == value_of_lifetime(lifetime) { unimplemented!() }
 }
 pub uninterp spec fn goal_of_alias_eq<I: Interner>(a: AliasEq<I>) -> Goal<I>;
+pub uninterp spec fn const_data<I: Interner>(c: Const<I>) -> ConstData<I>;
+pub uninterp spec fn var_const<I: Interner>(v: EnaVariable<I>, ty: Ty<I>) -> Const<I>;
+impl<I: Interner> Const<I> {
+    #[verifier::external_body]
+    pub fn data(&self, interner: I) -> (r: &ConstData<I>) ensures *r == const_data(*self) { unimplemented!() }
+}
+impl<I: Interner> EnaVariable<I> {
+    #[verifier::external_body]
+    pub fn to_const(self, interner: I, ty: Ty<I>) -> (r: Const<I>) ensures r == var_const(self, ty) { unimplemented!() }
+}
 pub uninterp spec fn var_ty<I: Interner>(v: EnaVariable<I>) -> Ty<I>;
 impl<I: Interner> AliasEq<I> {
     /// `CastTo<Goal<I>>` for an associated-type equality
@@ -227,6 +240,8 @@ impl<'t, I: Interner> Unifier<'t, I> {
 //@FN file=chalk-solve/src/infer/unify.rs within="^impl<'t, I: Interner> Unifier<'t, I>$" fn=push_lifetime_outlives_goals contract=push_goals path=Unifier::push_lifetime_outlives_goals
 //@FN file=chalk-solve/src/infer/unify.rs within="^impl<'t, I: Interner> Unifier<'t, I>$" fn=unify_lifetime_var contract=unify_lifetime_var path=Unifier::unify_lifetime_var
 //@FN file=chalk-solve/src/infer/unify.rs within="^impl<'t, I: Interner> Unifier<'t, I>$" fn=relate_alias_ty contract=relate_alias_ty path=Unifier::relate_alias_ty
+//@FN file=chalk-solve/src/infer/unify.rs within="^impl<'t, I: Interner> Unifier<'t, I>$" fn=generalize_lifetime contract=generalize_lifetime path=Unifier::generalize_lifetime
+//@FN file=chalk-solve/src/infer/unify.rs within="^impl<'t, I: Interner> Unifier<'t, I>$" fn=generalize_const contract=generalize_const path=Unifier::generalize_const
 }
 
 //@CONTRACT push_goals
@@ -234,6 +249,31 @@ impl<'t, I: Interner> Unifier<'t, I> {
         final(self).goal_seq() == old(self).goal_seq() + required(old(self).env(), variance, a, b),
         final(self).env() == old(self).env(),
         final(self).tview() == old(self).tview(),
+//@END
+//@CONTRACT generalize_lifetime
+    ensures
+        final(self).goal_seq() == old(self).goal_seq(), final(self).env() == old(self).env(),
+        // C29 / C14: a lifetime at an INVARIANT position (or one bound inside the type) is kept as it is ...
+        (lifetime_data(*lifetime) is BoundVar || variance is Invariant) ==> r == *lifetime && final(self).tview() == old(self).tview(),
+        // ... anywhere else it is replaced by a FRESH unknown of the variable's universe, to be related to it later
+        !(lifetime_data(*lifetime) is BoundVar || variance is Invariant) ==> {
+            let x = spec_fresh(old(self).tview());
+            &&& r == var_lifetime(x)
+            &&& final(self).tview().universe == old(self).tview().universe.insert(x, universe_index)
+            &&& final(self).tview().bound == old(self).tview().bound && final(self).tview().unified == old(self).tview().unified
+        },
+//@END
+//@CONTRACT generalize_const
+    ensures
+        final(self).goal_seq() == old(self).goal_seq(), final(self).env() == old(self).env(),
+        const_data(*const_).value is BoundVar ==> r == *const_ && final(self).tview() == old(self).tview(),
+        // any other constant is replaced by a fresh unknown of the same type in the variable's universe
+        !(const_data(*const_).value is BoundVar) ==> {
+            let x = spec_fresh(old(self).tview());
+            &&& r == var_const(x, const_data(*const_).ty)
+            &&& final(self).tview().universe == old(self).tview().universe.insert(x, universe_index)
+            &&& final(self).tview().bound == old(self).tview().bound && final(self).tview().unified == old(self).tview().unified
+        },
 //@END
 //@CONTRACT relate_alias_ty
     ensures
